@@ -79,11 +79,22 @@ def holdsCore (p : Params) (calls : List Call) (o : Obs) : Bool :=
         | .rok => r.revoked
         | _ => true))
 
-/-- "only while valid": a successful activation has a step at which the code was generated and not expired. -/
+/-- Event `k` is step number `n` (counting from 0) of call `i`, and just before it the code is generated and its
+period not over. -/
+def stepValid (evs : List Ev) (i n k : Nat) : Bool :=
+  evs[k]? == some (.th i) && validAt evs k && ((evs.take k).count (.th i) == n)
+
+/-- "only while valid": for a successful activation, step 1 of the call (its read of the record) and step 2 (its
+re-decision, `connCode.Activate` on the local copy with the current clock, before anything is created; step 0 is
+the claim) both happen at instants at which the code was generated and its period not over.  An activation that
+lies before the generation or after the end of the period, or whose read or re-decision falls after the end of
+the period, therefore never succeeds. -/
 def holdsValid (evs : List Ev) (o : Obs) : Bool :=
   (List.range o.results.length).all (fun i =>
     match o.results[i]? with
-    | some (.ok _ _) => (List.range evs.length).any (fun k => evs[k]? == some (.th i) && validAt evs k)
+    | some (.ok _ _) =>
+      (List.range evs.length).any (fun k => stepValid evs i 1 k) &&
+      (List.range evs.length).any (fun k => stepValid evs i 2 k)
     | _ => true)
 
 def holds (p : Params) (calls : List Call) (evs : List Ev) (o : Obs) : Bool :=
